@@ -102,6 +102,11 @@ def cases_for(ctx, desc, rng, max_combos=16):
                 if entry == "func" and any(k in pipegen.all_outputs(desc) for k in combo):
                     entry = "call"                      # Pipeline.func(o) takes root arguments only
                 cases.append((entry, o, kw, "listed"))
+            if combos and len(f["outputs"]) > 1:
+                # Pipeline.func(o) for every output of a tuple-output function, in sequence on the same pipeline object
+                roots = next((c for c in combos if not any(k in pipegen.all_outputs(desc) for k in c)), None)
+                if roots is not None:
+                    cases.append(("func", o, [[k, kwval(k)] for k in roots], "func-each-output"))
             if combos:
                 base = list(rng.choice(combos))
                 pool = [n for n in (["r0", "r1", "r2", "zz"] + pipegen.all_outputs(desc)) if n not in base and n != o]
@@ -161,7 +166,7 @@ def judge(ctx, desc, req, meta, resp):
         mod_c = dict(model)
         # the call log is compared as a multiset plus the model's order validity; errors only as accept/reject
         if "err" in ob_c or "err" in mod_c:
-            if kind in ("listed", "tuple-request") and "err" in ob_c:
+            if kind in ("listed", "tuple-request", "func-each-output") and "err" in ob_c:
                 ctx.violation(case, f"argument combination listed by arg_combinations is rejected ({ob_c['err']})", impl=ob_c, model=mod_c)
             elif ("err" in ob_c) != ("err" in mod_c):
                 what = (f"listed argument combination rejected ({ob_c.get('err')})" if kind == "listed" and "err" in ob_c else
